@@ -99,6 +99,13 @@ CLAIMED = {
             "pointIdxP_wrong (the pinned formula is wrong for every non-zero origin); sampled interior cell centres are queried and compared "
             "with the stored values and with the Lean matching model (single-box case, box, local index).",
             "scipy map_coordinates at integer indices is a parameter; only CASE 1 (single box) is in the property and the model."),
+    "C16": ("Lean 4 theorems on chunk arithmetic and the column model (truncated levels) + per-cell correspondence check",
+            "Proof: Chunks.chunks_le (the repaired chunk size never needs more files than names), Column.slice_initialised / slice_affine applied "
+            "to the configuration truncated to levels 0..l (the data written for level l), the regenerated FAB header literal "
+            "(mandolineHeader_eq_utilsHeader, without which taste rejects the slice) and threshold; every cell of every written box is compared "
+            "with the Python specification and the Lean column model, the listed boxes with the footprints the plane meets, outputs are tasted "
+            "with box coordinates, incl. a slice above the one-megabyte threshold.",
+            "Header rendering of the 2D plotfile is checked by the oracle on the real output; floats at rtol 1e-9."),
 }
 
 NOT_YET = {}
